@@ -3,6 +3,7 @@
 package oracles
 
 import (
+	"context"
 	"time"
 
 	"github.com/tikv/client-go/v2/oracle"
@@ -56,4 +57,19 @@ func VerifSetConfigured(conf, cur, newInterval time.Duration) (time.Duration, ti
 	o.adaptiveLastTSUpdateInterval.Store(int64(cur))
 	err := o.SetLowResolutionTimestampUpdateInterval(newInterval)
 	return time.Duration(o.lastTSUpdateInterval.Load()), time.Duration(o.adaptiveLastTSUpdateInterval.Load()), err
+}
+
+// VerifStartUpdater starts the background updater (pdOracle.updateTS) exactly as NewPdOracle does without NoUpdateTS.
+func VerifStartUpdater(oc oracle.Oracle) {
+	go oc.(*pdOracle).updateTS(context.TODO())
+}
+
+// VerifTriggerUpdate makes the running updateTS loop execute its update (doUpdate) now, through its own
+// "shrink the interval" branch: the last tick is moved into the past (the loop goroutine is parked in its select, the
+// channel send orders this write before its reads) and a required staleness below the current interval is sent, so
+// nextUpdateInterval returns a new interval and `time.Since(lastTick) >= currentInterval` holds.
+func VerifTriggerUpdate(oc oracle.Oracle, requiredStaleness time.Duration) {
+	o := oc.(*pdOracle)
+	o.adaptiveUpdateIntervalState.lastTick = time.Time{}
+	o.adaptiveUpdateIntervalState.shrinkIntervalCh <- requiredStaleness
 }
